@@ -464,6 +464,8 @@ class Interp(object):
             v = self.repo.const(m.name, n)
             if v is not NOCONST:
                 return v
+            if n in m.const_nodes:
+                return self.module_value(m, n)
             if n in m.funcs:
                 return FuncRef(m.funcs[n])
             if n in m.classes:
@@ -478,12 +480,27 @@ class Interp(object):
                             return FuncRef(mm.funcs[orig])
                         if orig in mm.classes:
                             return ClassRef(orig)
+                        if orig in mm.const_nodes:
+                            return self.module_value(mm, orig)
                 return Top('import:%s.%s' % (mod, orig))
             if n in m.mod_imports:
                 return ModRef(m.mod_imports[n])
         if n in BUILTIN_EXC:
             return ClassRef(n)
         return Top('name:' + n)
+
+    def module_value(self, m, n):
+        """A module-level binding that is not a foldable literal (it calls a constructor, say): evaluated once per
+        interpreter so that every reader sees the same object, as at run time."""
+        cache = self.__dict__.setdefault('_module_values', {})
+        key = (m.name, n)
+        if key not in cache:
+            cache[key] = Top('name:' + n)     # cycles
+            try:
+                cache[key] = self.ev(m.const_nodes[n], Frame(None, m, None, 0))
+            except (Raise, AnalysisError):
+                cache[key] = Top('name:' + n)
+        return cache[key]
 
     def ev_Tuple(self, e, frame):
         return tuple(self.ev_elts(e.elts, frame))
@@ -525,6 +542,17 @@ class Interp(object):
             return r
         return self.load_attr(base, e.attr, e, frame)
 
+    def class_may_have(self, cls, attr):
+        """Some method of the class or of a base class assigns self.<attr>, or the class body binds it."""
+        from sa.model import effects
+        for c in self.repo.mro(cls):
+            if attr in c.class_consts or attr in c.methods:
+                return True
+            for fi in c.methods.values():
+                if attr in effects(fi).written('self'):
+                    return True
+        return False
+
     def load_attr(self, base, attr, node, frame):
         if isinstance(base, ModRef):
             k = (base.name, attr)
@@ -556,6 +584,8 @@ class Interp(object):
                             return ast.literal_eval(c.class_consts[attr])
                         except Exception:
                             break
+                if base.fields.get('__strict__') and not self.class_may_have(base.cls, attr):
+                    raise Raise('AttributeError', node, self.where(node, frame), value='%s object has no attribute %s' % (base.cls, attr))
             return Top('attr:' + attr)
         if isinstance(base, ClassRef):
             if self.repo.has_cls(base.name):
